@@ -47,6 +47,7 @@ func setup(repo string) (*Program, *Specs, error) {
 	if err != nil {
 		return nil, nil, err
 	}
+	loadTemplateDrivers()
 	return prog, specs, nil
 }
 
@@ -112,6 +113,7 @@ func (ex *Exec) verifyFunc(key string) error {
 			st.pinned = append(st.pinned, v.T)
 		}
 	}
+	ex.probeTerms(st, pf, key)
 	nRet := 0
 	ex.callBody(st, fn, args, binds, 0, true, func(st2 *State, fr *Frame, ret Val) {
 		nRet++
